@@ -599,7 +599,7 @@ def run(prog, rep, tier):
 
     # ------------------------------------------------------------ R5.10 the tar member is chosen by its whole name
     R510 = rep.rule("R5.10", "the archive member to extract is selected by equality of the whole member path")
-    dn = prog.body("s4lib::readers::filedecompressor::decompress_to_ntf")
+    dn = prog.body_or_impl("s4lib::readers::filedecompressor::decompress_to_ntf")
     loose = []
     eqs = 0
     for c in dn.live_calls():
